@@ -265,7 +265,9 @@ static char *make_token(const pk_t *p, const hd_t *h, int sk)
 
 /* ------------------------------------------------------------------ JWK attribute variants */
 static const char *ATTR_ALL[] = { NULL, "none", "HS256", "HS384", "HS512", "RS256", "RS384", "RS512", "ES256", "ES384", "ES512",
-				  "PS256", "PS384", "PS512", "ES256K", "EdDSA", "XS999" };
+				  "PS256", "PS384", "PS512", "ES256K", "EdDSA", "XS999",
+				  /* names of RFC 7518 section 4.1 (key management, not signatures) and near-misses of JWS names */
+				  "RSA-OAEP", "RSA1_5", "A256KW", "dir", "ECDH-ES", "PBES2-HS256+A128KW", "A128GCMKW", "hs256", "Ed25519" };
 
 static int attr_list(const pk_t *p, const char **out)
 {
@@ -287,6 +289,8 @@ static int attr_list(const pk_t *p, const char **out)
 		out[n++] = "EdDSA"; out[n++] = "ES256"; out[n++] = "HS256";
 	}
 	out[n++] = "XS999";
+	/* a key-management name of RFC 7518 section 4.1: no signature algorithm either */
+	out[n++] = !p->vk ? "dir" : !strcmp(p->vk->kty, "RSA") ? "RSA-OAEP" : "ECDH-ES";
 	return n;
 }
 
@@ -519,11 +523,22 @@ out:
 
 static long n_accept, n_reject;
 
+/* the algorithm the key's own "alg" member names, read by the harness from the text it wrote into the JWK (absent: none; a name that is
+ * no JWS algorithm -- a misspelling, a JWE key-management name such as RSA-OAEP or dir: INVAL), not from the item the library made of it */
+static const char *cell_attr;
+static int cell_attr_set;
+static jwt_alg_t model_keyalg(const jwk_item_t *item)
+{
+	if (!cell_attr_set)
+		return jwks_item_alg(item);
+	return cell_attr ? tok_alg_of(cell_attr) : JWT_ALG_NONE;
+}
+
 static void checker_cell(const pk_t *p, const jwk_item_t *item, jwt_alg_t A, int route, const hd_t *h, const char *token)
 {
 	jwt_checker_t *c = jwt_checker_new();
 	struct cbctx ctx = { route, item, A };
-	jwt_alg_t keyalg = item ? jwks_item_alg(item) : JWT_ALG_NONE;
+	jwt_alg_t keyalg = item ? model_keyalg(item) : JWT_ALG_NONE;
 	int setrc = 0;
 	if (route == RT_SETKEY_TWICE && jwt_checker_setkey(c, JWT_ALG_NONE, jwks_item_get(first_set, 0)))
 		vf_violation("harness|first-setkey-refused", "setkey(none, oct key with alg HS256) was refused");
@@ -603,7 +618,7 @@ static void builder_cell(const pk_t *p, const jwk_item_t *item, jwt_alg_t A, int
 {
 	jwt_builder_t *b = jwt_builder_new();
 	struct cbctx ctx = { route, item, A };
-	jwt_alg_t keyalg = item ? jwks_item_alg(item) : JWT_ALG_NONE;
+	jwt_alg_t keyalg = item ? model_keyalg(item) : JWT_ALG_NONE;
 	int priv = item ? jwks_item_is_private(item) : 0;
 	if (route == RT_SETKEY_TWICE)
 		jwt_builder_setkey(b, JWT_ALG_NONE, jwks_item_get(first_set, 0));
@@ -733,6 +748,8 @@ static void enumerate_c02(void)
 		for (int a = 0; a < na; a++) {
 			jwk_set_t *set = p ? load_pk(p, 0, attrs[a]) : NULL;
 			const jwk_item_t *item = set ? jwks_item_get(set, 0) : NULL;
+			cell_attr = attrs[a];
+			cell_attr_set = 1;
 			if (p && (!item || jwks_item_error(item))) {
 				fprintf(stderr, "policy: cannot load %s attr %s: %s\n", p->name, attrs[a] ? attrs[a] : "-", item ? jwks_item_error_msg(item) : "no item");
 				exit(2);
@@ -793,6 +810,8 @@ static void enumerate_c02(void)
 			for (int a = 0; a < na; a++) {
 				jwk_set_t *set = p ? load_pk(p, priv, attrs[a]) : NULL;
 				const jwk_item_t *item = set ? jwks_item_get(set, 0) : NULL;
+				cell_attr = attrs[a];
+				cell_attr_set = 1;
 				for (int A = 0; A < NALG; A++)
 					for (int route = 0; route < NRT; route++) {
 						if (!vf_case("builder alg=%s key=%s(%s) key.alg=%s route=%s", A < 15 ? tok_alg_names[A] : "INVAL",
@@ -860,6 +879,8 @@ static void enumerate_c03(void)
 			const char *attr = a ? matching_attr(p) : NULL;
 			jwk_set_t *set = p ? load_pk(p, 0, attr) : NULL;
 			const jwk_item_t *item = set ? jwks_item_get(set, 0) : NULL;
+			cell_attr = attr;
+			cell_attr_set = 1;
 			char *vtok[64], *etok[64];
 			int built = 0;
 			for (unsigned ai = 0; ai < sizeof ALGS / sizeof *ALGS; ai++)
@@ -913,10 +934,12 @@ static void enumerate_c03(void)
 		for (int priv = 1; priv >= 0; priv--) {
 			if (!priv && (!p || !p->vk))
 				continue;
-			for (int a = 0; a < (p ? 3 : 1); a++) {
-				const char *attr = a == 1 ? matching_attr(p) : a == 2 ? "XS999" : NULL;
+			for (int a = 0; a < (p ? 5 : 1); a++) {
+				const char *attr = a == 1 ? matching_attr(p) : a == 2 ? "XS999" : a == 3 ? "RSA-OAEP" : a == 4 ? "dir" : NULL;
 				jwk_set_t *set = p ? load_pk(p, priv, attr) : NULL;
 				const jwk_item_t *item = set ? jwks_item_get(set, 0) : NULL;
+				cell_attr = attr;
+				cell_attr_set = 1;
 				for (unsigned ai = 0; ai < sizeof ALGS / sizeof *ALGS; ai++)
 					for (int route = 0; route < NRT; route++) {
 						jwt_alg_t A = ALGS[ai];
